@@ -9,44 +9,90 @@ import SlogModel.Gen.Facts
       prefix of what was parsed on that connection for that key set.
   * `C05_path_complete_when_flushed` : once the connection's buffers are empty (the listener flushes before
       it closes a sink), the channel has received all of it.
+  * the timeout branch of `channelInputBuffer.Flush` (a batch discarded when the pipeline channel stays full) is the
+      action `cdiscard`: the order theorem holds with it (a subsequence of what was parsed, a prefix of what was not
+      discarded); prefix of everything and completeness hold when no flush timed out.
   Tied to the code by five regenerated source facts (append / whole-buffer hand-over / per-record loop /
-  copy-and-send).  Not modelled: the timeout branch of `channelInputBuffer.Flush` (fact
-  `C05_fact_cache_flush` pins that it exists and that nothing else discards records).
+  copy-and-send; `C05_fact_cache_flush` pins the timeout branch and that nothing else discards records).
 -/
 
 namespace C05
 open Dist
 
-/-- what was parsed on connection `c` for key set `k`, in order, is: what the channel of `k` received from `c`,
-then the connection's buffer for `k`, then what still waits in the connection's first buffer -/
+/-- what was parsed on connection `c` for key set `k` and not discarded, in order, is: what the channel of `k` received
+from `c`, then the connection's buffer for `k`, then what still waits in the connection's first buffer -/
 structure DInv (s : St) : Prop where
-  ord : ∀ c k, (s.chan k).filter (fun r => r.conn = c) ++ s.cache c k ++ (s.b1 c).filter (fun r => r.key = k) =
-    (s.hist c).filter (fun r => r.key = k)
+  ord : ∀ c k, (s.chan k).filter (fun r => r.conn = c) ++ s.cache c k ++ (s.b1 c).filter (fun r => r.key = k) = s.kept c k
+  sub : ∀ c k, (s.kept c k).Sublist ((s.hist c).filter (fun r => r.key = k))
+  nod : s.discards = 0 → ∀ c k, s.kept c k = (s.hist c).filter (fun r => r.key = k)
   b1c : ∀ c, ∀ r ∈ s.b1 c, r.conn = c
   cc : ∀ c k, ∀ r ∈ s.cache c k, r.conn = c ∧ r.key = k
   chk : ∀ k, ∀ r ∈ s.chan k, r.key = k
   hc : ∀ c, ∀ r ∈ s.hist c, r.conn = c
 
 theorem init_dinv : DInv {} := by
-  refine ⟨?_, ?_, ?_, ?_, ?_⟩
+  refine ⟨?_, ?_, ?_, ?_, ?_, ?_, ?_⟩
   · intro c k; rfl
+  · intro c k; exact List.Sublist.refl _
+  · intro _ c k; rfl
   · intro c r h; simp at h
   · intro c k r h; simp at h
   · intro k r h; simp at h
   · intro c r h; simp at h
 
+theorem upd2_same (f : Nat → Nat → List R) (i k : Nat) (v : List R) : upd2 f i k v i k = v := by simp [upd2]
+theorem upd2_other (f : Nat → Nat → List R) (i k j l : Nat) (v : List R) (h : ¬ (j = i ∧ l = k)) : upd2 f i k v j l = f j l := by
+  simp [upd2, h]
+
 theorem step_dinv (s s' : St) (a : Act) (h : step s a = some s') (hi : DInv s) : DInv s' := by
   cases a with
   | accept r =>
     simp only [step] at h; cases h
-    refine ⟨?_, ?_, hi.cc, hi.chk, ?_⟩
+    refine ⟨?_, ?_, ?_, ?_, hi.cc, hi.chk, ?_⟩
     · intro c k
       have := hi.ord c k
+      dsimp only
       by_cases hc : c = r.conn
       · subst hc
-        simp only [upd, if_true, List.filter_append]
-        rw [← List.append_assoc, this]
-      · simp only [upd, hc, if_false]; exact this
+        by_cases hk : k = r.key
+        · subst hk
+          simp only [upd, if_true, upd2_same, List.filter_append, List.filter_cons, decide_true, List.filter_nil]
+          rw [← List.append_assoc, this]
+        · have hk' : ¬ r.key = k := fun e => hk e.symm
+          rw [upd2_other _ _ _ _ _ _ (by intro e; exact hk e.2)]
+          simp only [upd, if_true, List.filter_append, List.filter_cons, hk', decide_false, List.filter_nil, Bool.false_eq_true, if_false, List.append_nil]
+          exact this
+      · rw [upd2_other _ _ _ _ _ _ (by intro e; exact hc e.1)]
+        simp only [upd, hc, if_false]; exact this
+    · intro c k
+      have := hi.sub c k
+      dsimp only
+      by_cases hc : c = r.conn
+      · subst hc
+        by_cases hk : k = r.key
+        · subst hk
+          simp only [upd, if_true, upd2_same, List.filter_append, List.filter_cons, decide_true, List.filter_nil]
+          exact List.Sublist.append this (List.Sublist.refl _)
+        · have hk' : ¬ r.key = k := fun e => hk e.symm
+          rw [upd2_other _ _ _ _ _ _ (by intro e; exact hk e.2)]
+          simp only [upd, if_true, List.filter_append, List.filter_cons, hk', decide_false, List.filter_nil, Bool.false_eq_true, if_false, List.append_nil]
+          exact this
+      · rw [upd2_other _ _ _ _ _ _ (by intro e; exact hc e.1)]
+        simp only [upd, hc, if_false]; exact this
+    · intro hd c k
+      have := hi.nod hd c k
+      dsimp only
+      by_cases hc : c = r.conn
+      · subst hc
+        by_cases hk : k = r.key
+        · subst hk
+          simp only [upd, if_true, upd2_same, List.filter_append, List.filter_cons, decide_true, List.filter_nil, this]
+        · have hk' : ¬ r.key = k := fun e => hk e.symm
+          rw [upd2_other _ _ _ _ _ _ (by intro e; exact hk e.2)]
+          simp only [upd, if_true, List.filter_append, List.filter_cons, hk', decide_false, List.filter_nil, Bool.false_eq_true, if_false, List.append_nil]
+          exact this
+      · rw [upd2_other _ _ _ _ _ _ (by intro e; exact hc e.1)]
+        simp only [upd, hc, if_false]; exact this
     · intro c x hx
       by_cases hc : c = r.conn
       · subst hc
@@ -70,7 +116,7 @@ theorem step_dinv (s s' : St) (a : Act) (h : step s a = some s') (hi : DInv s) :
     | cons r rest =>
       simp only [hb] at h; cases h
       have hrc : r.conn = c := hi.b1c c r (by rw [hb]; simp)
-      refine ⟨?_, ?_, ?_, hi.chk, hi.hc⟩
+      refine ⟨?_, hi.sub, hi.nod, ?_, ?_, hi.chk, hi.hc⟩
       · intro c' k
         have := hi.ord c' k
         by_cases hc : c' = c
@@ -102,7 +148,7 @@ theorem step_dinv (s s' : St) (a : Act) (h : step s a = some s') (hi : DInv s) :
         · simp only [upd2, hck, if_false] at hx; exact hi.cc c' k x hx
   | cflush c k =>
     simp only [step] at h; cases h
-    refine ⟨?_, hi.b1c, ?_, ?_, hi.hc⟩
+    refine ⟨?_, hi.sub, hi.nod, hi.b1c, ?_, ?_, hi.hc⟩
     · intro c' k'
       have := hi.ord c' k'
       by_cases hk : k' = k
@@ -138,6 +184,29 @@ theorem step_dinv (s s' : St) (a : Act) (h : step s a = some s') (hi : DInv s) :
         · exact hi.chk _ x hx
         · exact (hi.cc c k' x hx).2
       · simp only [upd, hk, if_false] at hx; exact hi.chk k' x hx
+  | cdiscard c k =>
+    simp only [step] at h; cases h
+    refine ⟨?_, ?_, ?_, hi.b1c, ?_, hi.chk, hi.hc⟩
+    · intro c' k'
+      dsimp only
+      by_cases hck : c' = c ∧ k' = k
+      · obtain ⟨rfl, rfl⟩ := hck
+        simp only [upd2_same, List.append_nil]
+      · rw [upd2_other _ _ _ _ _ _ hck, upd2_other _ _ _ _ _ _ hck]; exact hi.ord c' k'
+    · intro c' k'
+      dsimp only
+      by_cases hck : c' = c ∧ k' = k
+      · obtain ⟨rfl, rfl⟩ := hck
+        simp only [upd2_same]
+        refine List.Sublist.trans ?_ (hi.sub c' k')
+        rw [← hi.ord c' k']
+        exact List.Sublist.append (List.sublist_append_left _ _) (List.Sublist.refl _)
+      · rw [upd2_other _ _ _ _ _ _ hck]; exact hi.sub c' k'
+    · intro hd; simp at hd
+    · intro c' k' x hx
+      by_cases hck : c' = c ∧ k' = k
+      · simp only [upd2, hck, and_self, if_true] at hx; cases hx
+      · simp only [upd2, hck, if_false] at hx; exact hi.cc c' k' x hx
 
 theorem run_dinv : ∀ (as : List Act) (s s' : St), run s as = some s' → DInv s → DInv s'
   | [], s, s', h, hi => by simp [run] at h; subst h; exact hi
@@ -147,20 +216,38 @@ theorem run_dinv : ∀ (as : List Act) (s s' : St), run s as = some s' → DInv 
     | none => simp [hs] at h
     | some s1 => simp [hs] at h; exact run_dinv as s1 s' h (step_dinv s s1 a hs hi)
 
-/-- **C05 (the path keeps the order).** -/
+/-- **C05 (the path keeps the order).** Under every interleaving of parsing, hand-over, flushing and discarding (a flush
+that times out on a full channel) on any number of connections: what the pipeline channel of a key set has received from a
+connection is, in order, a subsequence of what was parsed on that connection for that key set — a prefix of the records
+that were not discarded. -/
 theorem C05_path_keeps_order (as : List Act) (s : St) (h : run {} as = some s) (c k : Nat) :
+    ((s.chan k).filter (fun r => r.conn = c)).Sublist ((s.hist c).filter (fun r => r.key = k)) ∧
+    (s.chan k).filter (fun r => r.conn = c) <+: s.kept c k := by
+  have hi := run_dinv as {} s h init_dinv
+  have hp : (s.chan k).filter (fun r => r.conn = c) <+: s.kept c k := by
+    rw [← hi.ord c k, List.append_assoc]; exact List.prefix_append _ _
+  exact ⟨List.Sublist.trans hp.sublist (hi.sub c k), hp⟩
+
+/-- when no flush ever timed out it is a prefix of everything parsed -/
+theorem C05_path_prefix_without_discards (as : List Act) (s : St) (h : run {} as = some s) (hd : s.discards = 0) (c k : Nat) :
     (s.chan k).filter (fun r => r.conn = c) <+: (s.hist c).filter (fun r => r.key = k) := by
-  have := (run_dinv as {} s h init_dinv).ord c k
-  rw [← this, List.append_assoc]
-  exact List.prefix_append _ _
+  have hi := run_dinv as {} s h init_dinv
+  rw [← hi.nod hd c k]
+  exact (C05_path_keeps_order as s h c k).2
 
 /-- **C05 (nothing stays behind once flushed).** -/
 theorem C05_path_complete_when_flushed (as : List Act) (s : St) (h : run {} as = some s) (c k : Nat)
-    (h1 : s.b1 c = []) (h2 : s.cache c k = []) :
+    (h1 : s.b1 c = []) (h2 : s.cache c k = []) (hd : s.discards = 0) :
     (s.chan k).filter (fun r => r.conn = c) = (s.hist c).filter (fun r => r.key = k) := by
-  have := (run_dinv as {} s h init_dinv).ord c k
-  rw [h1, h2] at this
+  have hi := run_dinv as {} s h init_dinv
+  have := hi.ord c k
+  rw [h1, h2, hi.nod hd c k] at this
   simpa using this
+
+/-- non-vacuity: two connections, two key sets, a discarded batch in the middle — the order of what arrives is kept -/
+example : (run {} [.accept ⟨0, 7, 1⟩, .accept ⟨1, 7, 2⟩, .accept ⟨0, 7, 3⟩, .move 0, .cflush 0 7, .move 0, .cdiscard 0 7,
+                   .accept ⟨0, 7, 4⟩, .move 0, .move 1, .cflush 1 7, .cflush 0 7]).map (fun s => ((s.chan 7).map (·.id), s.discards)) =
+    some ([1, 2, 4], 1) := by decide
 
 /-! ### fact obligations (Tie B) -/
 
